@@ -529,7 +529,7 @@ func (w *W) enc(v reflect.Value, p P) error {
 			if int(*p.vUB) != t.NumField()-2 {
 				return &SchemaError{fmt.Sprintf("CHOICE %s valueUB %d but %d alternatives", t.Name(), *p.vUB, t.NumField()-1)}
 			}
-			if p.valExt {
+			if p.valExt || SpecRules && specChoiceExtensible(t) {
 				w.put("ext-choice", 0, 1)
 			}
 			if err := w.constrainedBitField(int64(present-1), 0, *p.vUB); err != nil {
@@ -538,12 +538,16 @@ func (w *W) enc(v reflect.Value, p P) error {
 			return w.enc(v.Field(present), ap)
 		}
 		// SEQUENCE
-		if p.valExt {
+		if p.valExt || SpecRules && specSeqExtensible(t) {
 			w.put("ext-seq", 0, 1)
 		}
 		fps := make([]P, t.NumField())
 		for i := 0; i < t.NumField(); i++ {
 			fps[i] = parseTag(t.Field(i).Tag.Get("aper"))
+			if SpecRules && isNgapType(t) && t.Field(i).Type.Kind() == reflect.Ptr && !fps[i].openType {
+				// the generated types hold exactly the OPTIONAL components of a SEQUENCE behind pointers
+				fps[i].opt = true
+			}
 			if fps[i].opt {
 				if v.Field(i).IsNil() {
 					w.put("opt", 0, 1)
@@ -577,6 +581,34 @@ func (w *W) enc(v reflect.Value, p P) error {
 	}
 	return fmt.Errorf("unsupported %s", v.Type())
 }
+
+// SpecRules switches on the structural rules of TS 38.413 that do not depend on the struct tags of the tree
+// under test (set by the C03/C04 tests; the self-tests run with and without):
+//   - every NGAP SEQUENCE that carries iE-Extensions, and every message (SEQUENCE of one protocolIEs /
+//     privateIEs container), has an extension marker; ProtocolIE-Field-like triples and the three outcome
+//     wrappers have none;
+//   - no NGAP CHOICE has an extension marker except NGAP-PDU (the others carry choice-Extensions instead);
+//   - the OPTIONAL components of a SEQUENCE are exactly the pointer-typed fields of the generated struct.
+// With the rules on, a tag that lost or gained "valueExt"/"optional" at one use site no longer steers the
+// reference: the library's bytes then differ from the reference's.
+var SpecRules bool
+
+func isNgapType(t reflect.Type) bool { return strings.HasSuffix(t.PkgPath(), "ngapType") }
+
+func specSeqExtensible(t reflect.Type) bool {
+	if !isNgapType(t) {
+		return false
+	}
+	if _, ok := t.FieldByName("IEExtensions"); ok {
+		return true
+	}
+	if t.NumField() == 1 && (t.Field(0).Name == "ProtocolIEs" || t.Field(0).Name == "PrivateIEs") {
+		return true
+	}
+	return false
+}
+
+func specChoiceExtensible(t reflect.Type) bool { return isNgapType(t) && t.Name() == "NGAPPDU" }
 
 // EncodeFault encodes v like Encode but alters the at-th structural field (see Fault).
 // It returns the hostile bytes, what was altered, and the number of structural fields.
